@@ -88,7 +88,9 @@ func (s Snap) SameButWords(o Snap) bool {
 }
 
 // SameValue reports equality of value and sign (signed zeros distinguished).
-func (s Snap) SameValue(o Snap) bool { return s.Val().Equal(o.Val()) && s.Malformed == "" && o.Malformed == "" }
+func (s Snap) SameValue(o Snap) bool {
+	return s.Val().Equal(o.Val()) && s.Malformed == "" && o.Malformed == ""
+}
 
 // WordsToDigits renders little-endian base-10^19 words as a digit string, most
 // significant digit first, 19 digits per word (leading zeros kept).
@@ -344,6 +346,14 @@ func (s Spec) Build() *decimal.Decimal {
 			if d == nil {
 				d = rawFinite(s.Neg, want.Digits, want.Exp, s.P, s.M)
 			}
+		case "pad":
+			// the mantissa carries zero words below the value's last digit (as exact results of operations at a larger
+			// precision do, and as SetBitsExp and GobDecode accept): up to the precision, at most 12 extra words
+			pad := int(s.P) - len(want.Digits)
+			if pad > 12*DW {
+				pad = 12 * DW
+			}
+			d = rawFinite(s.Neg, want.Digits+strings.Repeat("0", pad), want.Exp, s.P, s.M)
 		case "cap", "stale", "hugecap":
 			// a receiver that held a longer value before: large capacity, stale words
 			// (hugecap: at least seven times the words it needs, like the receiver of an earlier Karatsuba product)
